@@ -727,14 +727,25 @@ func (c *Ctx) havocWrites(fr *Frame, st *State, ws *writeSet, tag string) {
 			c.havocEverythingButGhost(st)
 		}
 		for i, k := range kl {
-			if _, written := ws.comps[k+"\x00"+ws.kept[k]]; written {
-				continue // also written directly in the loop: stays unknown
+			// refs written directly in the loop stay unknown; every other object older than the loop is unchanged
+			var excl []string
+			whole := false
+			for r := range ws.comps[k+"\x00"+ws.kept[k]] {
+				if r == "" || c.bornAfter(r, st) {
+					whole = true
+				}
+				excl = append(excl, not(eq("r", r)))
 			}
+			if whole {
+				continue
+			}
+			sort.Strings(excl)
 			c.nsym++
 			name := sym(fmt.Sprintf("%s@%d_kept", k, c.nsym))
 			c.declare(name, ws.kept[k])
-			c.assumeAlways(fmt.Sprintf("(forall ((r Int)) (! (=> (< r %s) (= (select %s r) (select %s r))) :pattern ((select %s r))))", nextPre, name, terms[i], name))
+			c.assumeAlways(fmt.Sprintf("(forall ((r Int)) (! (=> %s (= (select %s r) (select %s r))) :pattern ((select %s r))))", and(append([]string{app("<", "r", nextPre)}, excl...)...), name, terms[i], name))
 			st.heap[k] = name
+			delete(ws.comps, k+"\x00"+ws.kept[k]) // handled here
 		}
 	}
 	var rk []regKey
